@@ -297,7 +297,7 @@ pub proof fn lemma_trees_sel(v: Seq<Tag>, a: Seq<S>, n: nat)
             forall|j: int| 0 <= j < a.len() ==> (#[trigger] a[j]).s.is_ascii(),
             enc_size_est == sel_size(a, it.index@ as nat), sel_size(a, a.len()) <= usize::MAX,
             forall|j: int| 0 <= j < it.index@ ==> tree(#[trigger] attr_vec@[j]) == t_os(str_bytes(a[j].s@)),
-//@ insert before "enc_size_est += attr.as_ref().len() + 2;"
+//@ insert loop-start 1
         proof { lemma_sel_size_mono(a, (it.index@ + 1) as nat, a.len()); ax_str_bytes(attr.s); }
 //@ insert before "let cval = Tag::Sequence(Sequence {"
     proof { lemma_trees_sel(attr_vec@, a, a.len()); }
@@ -675,7 +675,7 @@ pub open spec fn wf_passmod_resp(t: StructureTag) -> bool {
 //@lift name=PasswordModifyResp::parse file=src/exop_impl/passmod.rs impl="impl\s+ExopParser\s+for\s+PasswordModifyResp\s*\{" fn=parse
 //@ sub "fn parse(val: &[u8]) -> PasswordModifyResp" => "fn passmod_resp_parse(val: &[u8]) -> PasswordModifyResp"
 //@ ret r
-//@ closure at="|t| t.match_id(0)" params="t: StructureTag" ret="(o: Option<StructureTag>)"
+//@ closure at="|t| t.match_id(" params="t: StructureTag" ret="(o: Option<StructureTag>)"
             ensures o == (if t.id == 0 { Some(t) } else { None })
 //@ closure at="|t| t.expect_primitive()" params="t: StructureTag" ret="(o: Option<Vec<u8>>)"
             ensures o == (match t.payload { PL::P(i) => Some(i), PL::C(_) => None::<Vec<u8>> })
@@ -712,11 +712,11 @@ pub open spec fn known_table() -> Map<Seq<char>, ControlType> {
         .insert("1.2.826.0.1.3344810.2.3"@, ControlType::MatchedValues)    // RFC 3876
 }
 //@lift name=CONTROLS file=src/controls_impl.rs block="static ref CONTROLS: HashMap<&'static str, ControlType> =" as="fn controls_table() -> (map_r: HashMap)"
-//@ sub "self::paged_results::" => ""
-//@ sub "self::read_entry::" => "" count=2
-//@ sub "self::content_sync::" => "" count=2
-//@ sub "self::manage_dsa_it::" => ""
-//@ sub "self::matched_values::" => ""
+//@ sub "self::paged_results::" => "" count=*
+//@ sub "self::read_entry::" => "" count=*
+//@ sub "self::content_sync::" => "" count=*
+//@ sub "self::manage_dsa_it::" => "" count=*
+//@ sub "self::matched_values::" => "" count=*
 //@ spec
     ensures map_r@ =~= known_table(), //# C03+C19.recognised_response_controls_are_tagged_with_their_own_type
 //@end
